@@ -43,6 +43,13 @@ Proof.
   split; [exact H | exact (graph_topo_acyclic eval_callgraph H)].
 Qed.
 
+(* in the core-language handlers (eval/mod.rs, eval/expr.rs) every force of a thunk
+   (push of State::DoThunk) is framed: a push_trace_item precedes it in the same
+   block; only the top-level thunk pushed by eval (depth 0) is exempt *)
+Theorem C10_core_thunk_forces_framed :
+  forallb (fun p => snd p) core_thunk_forces = true.
+Proof. vm_compute. reflexivity. Qed.
+
 (* the analyzer lets a `tailstrict` call run without a Call frame only in the
    tail positions of the specification (function body; then / else of `if`;
    body of `local`; body of `assert`): in particular not in an `if` condition *)
@@ -173,6 +180,7 @@ Print Assumptions C10_handler_words_balanced_sound.
 Print Assumptions C10_handler_gain_bounded.
 Print Assumptions C10_eval_callgraph_acyclic.
 Print Assumptions C10_tail_positions_spec.
+Print Assumptions C10_core_thunk_forces_framed.
 Print Assumptions C10_tracelen_invariant.
 Print Assumptions C10_dec_no_underflow.
 Print Assumptions C10_len_zero_at_end.
